@@ -200,6 +200,22 @@ theorem send_ctx_code_payload (k : CtxKind) :
     (envelopeWritePayloadError (duplexWriteCtxError k)).codeOf = ctxCode k := by
   cases k <;> decide
 
+/-- **send_after_response_ended**: whatever the call has stored before - the server's error,
+    the clean end of the response, a transport failure - a `Send` issued after the context ended
+    reports the context's code, and what is stored stays what it was (a later `Receive` still
+    reports the earlier outcome). -/
+theorem send_after_response_ended (stored : GoError) (k : CtxKind) :
+    (envelopeWritePrefixError (duplexWriteDone (some stored) k).1).codeOf = ctxCode k ∧
+    (duplexWriteDone (some stored) k).2 = some stored := by
+  refine ⟨?_, rfl⟩
+  show (envelopeWritePrefixError (duplexWriteCtxError k)).codeOf = ctxCode k
+  exact send_ctx_code_prefix k
+
+/-- … and with nothing stored, the context's error is also what gets stored -/
+theorem send_after_ctx_stores (k : CtxKind) :
+    ((duplexWriteDone none k).2.map GoError.codeOf) = some (ctxCode k) := by
+  cases k <;> decide
+
 /-- **History, F11** — on the pinned tree this was *false*: the coded context error from the
     payload write was re-wrapped as `unknown`. Witness (replayed on the implementation by the
     `cancel-mid-send` scenario through the verif yield points): -/
